@@ -7,6 +7,7 @@ import (
 	"regexp"
 	"sort"
 	"strings"
+	"sync"
 	"testing"
 	"testing/synctest"
 	"time"
@@ -95,6 +96,29 @@ func parseRaces(text string) (pairs []string, details map[string]string, harness
 		}
 	}
 	return
+}
+
+var pemOnce sync.Once
+var pemPaths [3]string
+
+// pemFiles writes the PKI's server certificate, key and CA certificate to files (once per process).
+func pemFiles() (string, string, string) {
+	pemOnce.Do(func() {
+		base := ""
+		if out := os.Getenv("VERIF_OUT"); out != "" {
+			base = filepath.Dir(out) // the driver's scratch directory, removed when the check ends
+		}
+		dir, err := os.MkdirTemp(base, "verif-pem-*")
+		if err != nil {
+			return
+		}
+		p := wl.GetPKI()
+		for i, b := range [][]byte{p.Server.CertPEM, p.Server.KeyPEM, p.CA.CertPEM} {
+			pemPaths[i] = filepath.Join(dir, []string{"cert.pem", "key.pem", "ca.pem"}[i])
+			os.WriteFile(pemPaths[i], b, 0o600)
+		}
+	})
+	return pemPaths[0], pemPaths[1], pemPaths[2]
 }
 
 type freeConn struct {
@@ -193,6 +217,12 @@ func runC14Bubble(t *testing.T, tape *sim.Tape, tier string, o *Outcome, schedp 
 			{"SADD", "s", "m"}, {"ZADD", "z", "1", "m"}, {"ZRANGE", "z", "0", "-1"}, {"DEL", "k"}, {"KEYS", "*"}, {"SELECT", "1"}, {"AUTH", "pw"}, {"AUTH", "nope"},
 			{"CONFIG", "SET", "maxclients", "10"}, {"CONFIG", "GET", "maxclients"}, {"CONFIG", "SET", "requirepass", "pw"}, {"CONFIG", "GET", "port"}, {"CONFIG", "SET", "port", fmt.Sprint(plainPort)},
 			{"MSET", "a", "1", "b", "2"}, {"APPEND", "k", "x"}, {"EXPIRE", "k", "10"}, {"QUIT"},
+		}
+		if withTLS {
+			// file-based TLS settings written at run time (the files hold the certificates already in use)
+			cf, kf, caf := pemFiles()
+			cmds = append(cmds, []string{"CONFIG", "SET", "tls-cert-file", cf}, []string{"CONFIG", "SET", "tls-key-file", kf}, []string{"CONFIG", "SET", "tls-ca-cert-file", caf},
+				[]string{"CONFIG", "GET", "tls-cert-file"}, []string{"CONFIG", "SET", "tls-port", fmt.Sprint(tlsPort)})
 		}
 		lifeBusy := false
 		for s := 0; s < steps; s++ {
@@ -343,7 +373,7 @@ func init() {
 	register(&Check{
 		ID: "C14", Bubble: false, Run: runC14, NoShrink: false,
 		Runs:   map[string]int{"quick": 6000, "thorough": 150000},
-		Rule:   "a case is one run of 3..12 steps; each step releases a seed-chosen batch of 2..8 (thorough ..32) concurrent stimuli (dials, in a quarter of the runs also TLS clients with accepted/rejected/missing certificates doing a real handshake against the TLS port, commands of every family incl. CONFIG SET/GET and AUTH, close/reset/half-close, registry queries incl. Close on a returned connection, at most one Start/Stop/Restart) and then waits for quiescence; the harness and the repo are built with -race and a report counts when both access stacks contain a framework frame; distinct = distinct stimulus-batch sequences; non-trivial = the run contains a lifecycle call, registry query or disconnect",
+		Rule:   "a case is one run of 3..12 steps; each step releases a seed-chosen batch of 2..8 (thorough ..32) concurrent stimuli (dials, in a quarter of the runs also TLS clients with accepted/rejected/missing certificates doing a real handshake against the TLS port, commands of every family incl. CONFIG SET/GET (also of the TLS file settings and ports) and AUTH, close/reset/half-close, registry queries incl. Close on a returned connection, at most one Start/Stop/Restart) and then waits for quiescence; the harness and the repo are built with -race and a report counts when both access stacks contain a framework frame; distinct = distinct stimulus-batch sequences; non-trivial = the run contains a lifecycle call, registry query or disconnect",
 		Real:   []string{"redis.Server (all of it) under the Go race detector", "reference store (internally locked)"},
 		Stub:   []string{"network: free-running simulated listener/connections with per-object locks only", "scheduler: seed decides stimuli and step boundaries; inside a step the Go runtime runs freely (the verdict is a happens-before property)"},
 		Assume: []string{"verdicts replay, traces do not: the replay criterion is that the same site pair is reported", "two lifecycle calls are never issued concurrently with each other"},
